@@ -14,10 +14,12 @@
 namespace pr {
 using namespace vf;
 
-struct PSet { unsigned long fs, gs, le; const char *name; };
+struct PSet { unsigned long fs, gs, le; const char *name; unsigned long dfs = 0, dgs = 0; };   // dfs/dgs: smaller sizes *declared* by an importing instance (0 = same as fs/gs)
 static const PSet PS_S = {512, 160, 40, "S"};     // |q| >= 2*le+64 must hold: 160 >= 144
 static const PSet PS_G = {512, 256, 80, "G"};
 static const PSet PS_D = {2048, 256, 80, "D"};
+// size arguments are lower bounds (CheckGroup refuses only |p| < fs, |q| < gs): an importing instance may declare less than the group really has
+static const PSet PS_L = {576, 224, 40, "L", 512, 160};
 
 typedef std::function<void(std::istream &, std::ostream &)> ProveFn;
 typedef std::function<bool(std::istream &, std::ostream &)> VerifyFn;
@@ -69,18 +71,24 @@ struct World {
 	bool view = false;       // a view borrows every object of another World (owns nothing); the caller replaces verifier-side pointers
 	std::function<std::string(const char *what, const std::string &group_text)> thook;   // edits the published group text a factory-local verifier object is built from
 	std::function<void(const char *what, void *verifier_obj)> ohook;                        // called on a factory-local verifier object right after its construction
+	int loose = 0;           // see below
 	struct ViewTag {};
 	World(const World &b, ViewTag) : ps(b.ps), vkind(b.vkind), vP(b.vP), vV(b.vV), group_text(b.group_text), vsshe(b.vsshe), rP(b.rP), rV(b.rV), eP(b.eP), eV(b.eV),
-		skA(b.skA), skB(b.skB), ring(b.ring), qr_w(b.qr_w), rabin_bits(b.rabin_bits), rng(b.rng), rng_vkey(b.rng_vkey), view(true) {}
-	BarnettSmartVTMF_dlog *fresh_vtmf() const {
+		skA(b.skA), skB(b.skB), ring(b.ring), qr_w(b.qr_w), rabin_bits(b.rabin_bits), rng(b.rng), rng_vkey(b.rng_vkey), view(true), loose(b.loose) {}
+	// loose: 0 = every instance declares the generated sizes; 1 = the verifier-side instances import the group with the smaller
+	// declared sizes ps.dfs/ps.dgs; 2 = the prover-side instances do (both sides are then importers of a discarded generator's group)
+	unsigned long dfs(bool verifier_side) const { return (ps.dfs && ((loose == 1 && verifier_side) || (loose == 2 && !verifier_side))) ? ps.dfs : ps.fs; }
+	unsigned long dgs(bool verifier_side) const { return (ps.dgs && ((loose == 1 && verifier_side) || (loose == 2 && !verifier_side))) ? ps.dgs : ps.gs; }
+	BarnettSmartVTMF_dlog *fresh_vtmf(bool verifier_side = true) const {
 		std::stringstream in(group_text);
 		if (vkind == 2) return new BarnettSmartVTMF_dlog_GroupQR(in, ps.fs, ps.gs);
-		return new BarnettSmartVTMF_dlog(in, ps.fs, ps.gs, vkind == 1, true);
+		return new BarnettSmartVTMF_dlog(in, dfs(verifier_side), dgs(verifier_side), vkind == 1, true);
 	}
-	World(const PSet &ps_, int vkind_, uint64_t seed) : ps(ps_), vkind(vkind_), rng(seed, 0x3017d, (uint64_t)vkind_) {
+	World(const PSet &ps_, int vkind_, uint64_t seed, int loose_ = 0) : ps(ps_), vkind(vkind_), rng(seed, 0x3017d, (uint64_t)vkind_), loose(loose_) {
 		Rng *old = tl_rng; tl_rng = &rng;
 		if (vkind == 2) vP = new BarnettSmartVTMF_dlog_GroupQR(ps.fs, ps.gs); else vP = new BarnettSmartVTMF_dlog(ps.fs, ps.gs, vkind == 1, true);
 		std::stringstream g; vP->PublishGroup(g); group_text = g.str();
+		if (loose == 2) { delete vP; vP = fresh_vtmf(false); }
 		vV = fresh_vtmf();
 		vP->KeyGenerationProtocol_GenerateKey(); rng_vkey = rng; vV->KeyGenerationProtocol_GenerateKey();
 		{ std::stringstream k; vP->KeyGenerationProtocol_PublishKey(k); if (!vV->KeyGenerationProtocol_UpdateKey(k)) throw std::runtime_error("world: UpdateKey P->V refused"); }
@@ -91,16 +99,20 @@ struct World {
 	}
 	void need_vrhe() { if (rP) return; Rng *old = tl_rng; tl_rng = &rng;
 		rP = new HooghSchoenmakersSkoricVillegasVRHE(vP->p, vP->q, vP->g, vP->h, ps.fs, ps.gs);
-		std::stringstream g; rP->PublishGroup(g); rV = new HooghSchoenmakersSkoricVillegasVRHE(g, ps.fs, ps.gs); tl_rng = old; }
+		std::stringstream g; rP->PublishGroup(g); std::string gt = g.str();
+		if (loose == 2) { delete rP; std::stringstream g2(gt); rP = new HooghSchoenmakersSkoricVillegasVRHE(g2, dfs(false), dgs(false)); }
+		std::stringstream g3(gt); rV = new HooghSchoenmakersSkoricVillegasVRHE(g3, dfs(true), dgs(true)); tl_rng = old; }
 	void need_edcf() { if (eP) return; Rng *old = tl_rng; tl_rng = &rng;
-		eP = new JareckiLysyanskayaEDCF(2, 0, vP->p, vP->q, vP->g, vP->h, ps.fs, ps.gs);
-		eV = new JareckiLysyanskayaEDCF(2, 0, vV->p, vV->q, vV->g, vV->h, ps.fs, ps.gs); tl_rng = old; }
+		eP = new JareckiLysyanskayaEDCF(2, 0, vP->p, vP->q, vP->g, vP->h, dfs(false), dgs(false));
+		eV = new JareckiLysyanskayaEDCF(2, 0, vV->p, vV->q, vV->g, vV->h, dfs(true), dgs(true)); tl_rng = old; }
 	std::pair<GrothVSSHE *, GrothVSSHE *> need_vsshe(size_t n) {
 		auto it = vsshe.find(n); if (it != vsshe.end()) return it->second;
 		Rng *old = tl_rng; tl_rng = &rng;
 		GrothVSSHE *P = new GrothVSSHE(n, vP->p, vP->q, vP->k, vP->g, vP->h, ps.le, ps.fs, ps.gs);
-		std::stringstream g; P->PublishGroup(g);
-		GrothVSSHE *V = new GrothVSSHE(n, g, ps.le, ps.fs, ps.gs);
+		std::stringstream g; P->PublishGroup(g); std::string gt = g.str();
+		if (loose == 2) { delete P; std::stringstream g2(gt); P = new GrothVSSHE(n, g2, ps.le, dfs(false), dgs(false)); }
+		std::stringstream g3(gt);
+		GrothVSSHE *V = new GrothVSSHE(n, g3, ps.le, dfs(true), dgs(true));
 		tl_rng = old;
 		vsshe[n] = std::make_pair(P, V); return vsshe[n];
 	}
@@ -314,7 +326,7 @@ inline std::vector<Factory> build_registry() {
 		Rng *old = tl_rng; tl_rng = &W.rng;
 		auto P = std::shared_ptr<GrothSKC>(new GrothSKC(n, W.ps.le, W.ps.fs, W.ps.gs)); std::stringstream g; P->PublishGroup(g);
 		if (W.thook) g.str(W.thook("skc", g.str()));
-		auto V = std::shared_ptr<GrothSKC>(new GrothSKC(n, g, W.ps.le, W.ps.fs, W.ps.gs)); if (W.ohook) W.ohook("skc", V.get()); tl_rng = old;
+		auto V = std::shared_ptr<GrothSKC>(new GrothSKC(n, g, W.ps.le, W.dfs(true), W.dgs(true))); if (W.ohook) W.ohook("skc", V.get()); tl_rng = old;
 		I->keep.push_back(P); I->keep.push_back(V);
 		mpz_set(I->p, P->com->p); mpz_set(I->q, P->com->q);
 		auto z = std::make_shared<ZV>(2); auto m = std::make_shared<ZV>(n), mpi = std::make_shared<ZV>(n); I->keep.push_back(z); I->keep.push_back(m); I->keep.push_back(mpi);
@@ -359,7 +371,7 @@ inline std::vector<Factory> build_registry() {
 		Rng *old = tl_rng; tl_rng = &W.rng;
 		auto P = std::shared_ptr<PedersenCommitmentScheme>(new PedersenCommitmentScheme(n, W.ps.fs, W.ps.gs)); std::stringstream g; P->PublishGroup(g);
 		if (W.thook) g.str(W.thook("pedersen", g.str()));
-		auto V = std::shared_ptr<PedersenCommitmentScheme>(new PedersenCommitmentScheme(n, g, W.ps.fs, W.ps.gs)); if (W.ohook) W.ohook("pedersen", V.get()); tl_rng = old;
+		auto V = std::shared_ptr<PedersenCommitmentScheme>(new PedersenCommitmentScheme(n, g, W.dfs(true), W.dgs(true))); if (W.ohook) W.ohook("pedersen", V.get()); tl_rng = old;
 		I->keep.push_back(P); I->keep.push_back(V); mpz_set(I->p, P->p); mpz_set(I->q, P->q);
 		auto m = std::make_shared<ZV>(n); I->keep.push_back(m); for (size_t i = 0; i < n; i++) { tmcg_mpz_srandomm(m->v[i], P->q); I->addpub("m[" + std::to_string(i) + "]", m->v[i], "exp"); }
 		(void)rg;
@@ -371,7 +383,7 @@ inline std::vector<Factory> build_registry() {
 		Rng *old = tl_rng; tl_rng = &W.rng;
 		auto P = std::shared_ptr<PedersenTrapdoorCommitmentScheme>(new PedersenTrapdoorCommitmentScheme(W.ps.fs, W.ps.gs)); std::stringstream g; P->PublishGroup(g);
 		if (W.thook) g.str(W.thook("trapdoor", g.str()));
-		auto V = std::shared_ptr<PedersenTrapdoorCommitmentScheme>(new PedersenTrapdoorCommitmentScheme(g, W.ps.fs, W.ps.gs)); if (W.ohook) W.ohook("trapdoor", V.get()); tl_rng = old;
+		auto V = std::shared_ptr<PedersenTrapdoorCommitmentScheme>(new PedersenTrapdoorCommitmentScheme(g, W.dfs(true), W.dgs(true))); if (W.ohook) W.ohook("trapdoor", V.get()); tl_rng = old;
 		I->keep.push_back(P); I->keep.push_back(V); mpz_set(I->p, P->p); mpz_set(I->q, P->q);
 		auto m = std::make_shared<ZV>(1); I->keep.push_back(m); tmcg_mpz_srandomm(m->v[0], P->q); I->addpub("m", m->v[0], "exp");
 		I->prove = [P, m](std::istream &, std::ostream &out) { mpz_t c, r; mpz_init(c); mpz_init(r); P->Commit(c, r, m->v[0]); out << c << std::endl << r << std::endl; mpz_clear(c); mpz_clear(r); };
